@@ -19,15 +19,11 @@ func init() {
 			Kind: slip.MacroSymbol,
 			Name: "setf",
 			Args: []*slip.DocArg{
+				{Name: "&rest"},
 				{
-					Name: "place",
-					Type: "place",
-					Text: "The symbol or place to bind to the _value_.",
-				},
-				{
-					Name: "value",
+					Name: "place-value-pairs",
 					Type: "object",
-					Text: "The value to assign to _symbol.",
+					Text: "Any number of pairs of a _place_, which is not evaluated, and the _value_ to assign to it.",
 				},
 			},
 			Return: "object",
